@@ -256,3 +256,138 @@ Proof.
   - unfold get_doc; cbn [wdocs]. rewrite nth_error_app2 by lia. rewrite Nat.sub_diag. reflexivity.
   - apply add_records_length in EA. cbn [dmain brecs bundle_init] in *. rewrite EA, app_length. cbn. lia.
 Qed.
+
+(* ------------------------------------------------------------------ C04: the bundle dictionary
+   of every reachable document has unique keys (the hypothesis of doc_eqb_iff) *)
+From Prov Require Import StrProofs.
+
+Definition WUniq (w : world) : Prop := Forall (fun dd => uniq (dbundles dd)) (wdocs w).
+
+Lemma uniq_snoc {V} : forall (d : list (string * V)) k v, uniq d -> mem k d = false -> uniq (d ++ [(k, v)])%list.
+Proof.
+  intros d k v U M. unfold uniq in *. rewrite map_app. cbn. apply NoDup_snoc; [exact U|].
+  intro H. apply in_map_iff in H. destruct H as [[k' v'] [E Hin]]. cbn in E. subst k'.
+  destruct (In_lookup_some _ _ _ Hin) as [x L]. unfold mem in M. rewrite L in M. discriminate.
+Qed.
+
+Lemma map_fst_set_nth {V} : forall (l : list (string * V)) i k v k0 v0,
+  nth_error l i = Some (k0, v0) -> k = k0 -> map fst (World.set_nth i (k, v) l) = map fst l.
+Proof.
+  induction l as [|x l IH]; intros [|i] k v k0 v0 H E; cbn in *; try discriminate.
+  - inversion H; subst. reflexivity.
+  - f_equal. eapply IH; eauto.
+Qed.
+
+Lemma uniq_set_nth {V} : forall (l : list (string * V)) i k v v0,
+  uniq l -> nth_error l i = Some (k, v0) -> uniq (World.set_nth i (k, v) l).
+Proof. intros. unfold uniq in *. erewrite map_fst_set_nth; eauto. Qed.
+
+Lemma doc_new_bundle_uniq : forall dd x ft dd' r, uniq (dbundles dd) -> doc_new_bundle dd x ft = (dd', r) -> uniq (dbundles dd').
+Proof.
+  intros dd x ft dd' r U H. unfold doc_new_bundle in H.
+  destruct x as [n|]; [|inversion H; subst; exact U].
+  destruct (resolve None (bns (dmain dd)) n) as [[m [q|]]|e|]; try (inversion H; subst; exact U).
+  cbn [dmain dbundles] in H.
+  destruct (mem (qn_uri q) (dbundles dd)) eqn:M; inversion H; subst; cbn [dbundles]; [exact U|].
+  apply uniq_snoc; assumption.
+Qed.
+
+Lemma merge_bundles_uniq : forall ft bs dd dd' r, uniq (dbundles dd) -> merge_bundles ft dd bs = (dd', r) -> uniq (dbundles dd').
+Proof.
+  induction bs as [|[k sb] bs IH]; intros dd dd' r U H; cbn [merge_bundles] in H.
+  - inversion H; subst; exact U.
+  - destruct sb as [[sid|] sns srecs smap]; [|inversion H; subst; exact U].
+    cbv zeta in H.
+    destruct (find _ (combine _ (dbundles dd))) as [[i ?]|].
+    + destruct (nth_error (dbundles dd) i) as [[k1 tb]|] eqn:E1; [|inversion H; subst; exact U].
+      destruct (add_records _ ft tb srecs) as [tb' [y|e|]] eqn:EA.
+      * eapply IH; [|exact H]. cbn [dbundles]. eapply uniq_set_nth; eauto.
+      * inversion H; subst. cbn [dbundles]. eapply uniq_set_nth; eauto.
+      * inversion H; subst. exact U.
+    + destruct (doc_new_bundle dd (Some (NQn sid)) ft) as [dd1 [y|e|]] eqn:EN;
+        try (inversion H; subst; eapply doc_new_bundle_uniq; eauto; fail).
+      pose proof (doc_new_bundle_uniq _ _ _ _ _ U EN) as U1.
+      destruct (nth_error (dbundles dd1) (length (dbundles dd1) - 1)) as [[k1 tb]|] eqn:E1;
+        [|inversion H; subst; exact U1].
+      destruct (add_records _ ft tb srecs) as [tb' [y2|e|]] eqn:EA.
+      * eapply IH; [|exact H]. cbn [dbundles]. eapply uniq_set_nth; eauto.
+      * inversion H; subst. cbn [dbundles]. eapply uniq_set_nth; eauto.
+      * inversion H; subst. exact U1.
+Qed.
+
+Lemma attach_bundle_uniq : forall dd b dd' r, uniq (dbundles dd) -> attach_bundle dd b = (dd', r) -> uniq (dbundles dd').
+Proof.
+  intros dd b dd' r U H. unfold attach_bundle in H.
+  destruct (bid b) as [i|]; [|inversion H; subst; exact U].
+  destruct (resolve _ (bns b) (NQn i)) as [[m [q|]]|e|]; try (inversion H; subst; exact U).
+  destruct (mem (qn_uri q) (dbundles dd)) eqn:M; inversion H; subst; [exact U|].
+  cbn [dbundles]. apply uniq_snoc; assumption.
+Qed.
+
+Lemma unify_bundles_uniq : forall ft bs nd nd', uniq (dbundles nd) -> unify_bundles ft bs nd = OK nd' -> uniq (dbundles nd').
+Proof.
+  induction bs as [|[k b] bs IH]; intros nd nd' U H; cbn [unify_bundles] in H.
+  - inversion H; subst; exact U.
+  - destruct (bundle_unified ft b) as [nb|e|]; try discriminate.
+    destruct (attach_bundle nd nb) as [nd1 [y|e|]] eqn:EA; try discriminate.
+    eapply IH; [|exact H]. eapply attach_bundle_uniq; eauto.
+Qed.
+
+Lemma WUniq_get_doc : forall w d dd, WUniq w -> get_doc w d = Some dd -> uniq (dbundles dd).
+Proof.
+  intros w d dd W G. unfold WUniq in W. rewrite Forall_forall in W.
+  apply (W dd). eapply nth_error_In; eauto.
+Qed.
+Lemma WUniq_set_doc : forall w d dd, WUniq w -> uniq (dbundles dd) -> WUniq (set_doc w d dd).
+Proof. intros. unfold WUniq, set_doc; cbn. apply Forall_set_nth; assumption. Qed.
+Lemma WUniq_set_cont : forall w c b, WUniq w -> WUniq (set_cont w c b).
+Proof.
+  intros w c b W. unfold set_cont. destruct c as [d|d i].
+  - destruct (get_doc w d) as [dd|] eqn:E; [|exact W]. apply WUniq_set_doc; [exact W|].
+    cbn [dbundles]. eapply WUniq_get_doc; eauto.
+  - destruct (get_doc w d) as [dd|] eqn:E; [|exact W].
+    destruct (nth_error (dbundles dd) i) as [[k bb]|] eqn:E2; [|exact W].
+    apply WUniq_set_doc; [exact W|]. cbn [dbundles]. eapply uniq_set_nth; [eapply WUniq_get_doc; eauto | eauto].
+Qed.
+Lemma WUniq_app : forall w nd ft, WUniq w -> uniq (dbundles nd) -> WUniq (mkW (wdocs w ++ [nd])%list ft).
+Proof. intros. unfold WUniq; cbn. apply Forall_app. split; [assumption | constructor; [assumption|constructor]]. Qed.
+Lemma uniq_nil {V} : uniq (@nil (string * V)).
+Proof. constructor. Qed.
+
+Ltac uq_d :=
+  first
+    [ assumption
+    | apply uniq_nil
+    | eapply doc_new_bundle_uniq; [ | eassumption ]; uq_d
+    | eapply merge_bundles_uniq; [ | eassumption ]; uq_d
+    | eapply unify_bundles_uniq; [ | eassumption ]; uq_d
+    | cbn [dbundles]; apply uniq_snoc; [ uq_d | assumption ]
+    | eapply WUniq_get_doc; [ | eassumption ]; uq_w ]
+with uq_w :=
+  match goal with
+  | |- WUniq (set_cont _ _ _) => apply WUniq_set_cont; uq_w
+  | |- WUniq (set_doc _ _ _) => apply WUniq_set_doc; [ uq_w | uq_d ]
+  | |- WUniq (mkW (_ ++ [_])%list _) => apply WUniq_app; [ uq_w | uq_d ]
+  | |- WUniq _ => assumption
+  end.
+
+Theorem step_uniq : forall w o, WUniq w -> WUniq (fst (step w o)).
+Proof.
+  intros w o W.
+  destruct o as [ |c p u|c u|c x|t x|c k i attrs|c f i args other|[c i] attrs|[c i] s e|[c i] v
+                 |c r|c o|t src x order|t|t|c|c x|c cls|a b|a b| ];
+    cbn [step]; unfold with_cont; cbn [fst snd].
+  all: repeat (match goal with
+          | |- context [match ?x with _ => _ end] => destruct x eqn:?
+          | |- context [if ?x then _ else _] => destruct x eqn:?
+          end; cbn [fst snd]); try uq_w.
+Qed.
+
+Theorem reachable_uniq : forall ft ops, WUniq (wrun ft ops).
+Proof.
+  intros ft ops. unfold wrun.
+  assert (G : forall w, WUniq w -> WUniq (fold_left (fun w o => fst (step w o)) ops w)).
+  { induction ops as [|o ops IH]; intros w W; cbn [fold_left]; [exact W|].
+    apply IH. apply step_uniq. exact W. }
+  apply G. constructor.
+Qed.
